@@ -119,6 +119,7 @@ def presultJson (r : PResult) : Json :=
   | .ok t => Json.mkObj [("ok", Json.arr ((normOut t).map otokJson).toArray), ("fetch", fetchJson r.fetches)]
   | .err e => Json.mkObj [("err", Json.str (errStr e)), ("fetch", fetchJson r.fetches)]
 
+def validatorOf (s : String) : Validator := match s with | "soft" => .soft | "lxml" => .lxml | _ => .none
 def protoOf (s : String) : Proto := match s with | "soap11" => .soap11 | "soap12" => .soap12 | _ => .xml
 def trOf (s : String) : Transport := match s with | "wsgi" => .wsgi | _ => .server
 
@@ -131,7 +132,7 @@ def outcomeJson (r : Outcome (List OTok) × List Uri) : Json :=
 def step (j : Json) : Json :=
   match getStr j "op" with
   | "kwargs" =>
-    kwJson (parserKwargs (F17.plumb (protoOf (getStr j "proto"))) (argsOf (jField j "args")))
+    kwJson (parserKwargsAtRequest F17 (protoOf (getStr j "proto")) (validatorOf (getStr j "validator")) (argsOf (jField j "args")))
   | "parse" => presultJson (parse F17.lib (kwOf (jField j "kw")) (envOf (jField j "env")) (docOf (jField j "doc")))
   | "handle" =>
     let rq := jField j "req"
